@@ -7,6 +7,7 @@ import (
 	"fmt"
 	"math/rand/v2"
 	"sort"
+	"strconv"
 	"strings"
 
 	corev1 "k8s.io/api/core/v1"
@@ -117,6 +118,46 @@ func implAny(raw json.RawMessage) (any, error) {
 		outs[i] = r.Any()
 	}
 	return map[string]any{"outs": outs}, nil
+}
+
+// genNearlyExhaustedWindow: a bounded integer window [lo, hi] (2 to 12 wide, written with Gt/Gte and Lt/Lte) of which a NotIn
+// excludes all values but one or two - mostly the LAST ones, so that neither the random probes of Any() nor a scan that stops
+// one candidate early finds them - or all of them (then "" is the only right answer).
+func genNearlyExhaustedWindow(r *rand.Rand) []rg.Expr {
+	lo := []int{0, 1, 2, 5, 100, 4096}[r.IntN(6)]
+	w := 2 + r.IntN(11)
+	hi := lo + w - 1
+	keep := map[int]bool{}
+	switch r.IntN(6) {
+	case 0: // nothing left
+	case 1:
+		keep[lo+r.IntN(w)] = true
+	case 2:
+		keep[hi], keep[lo+r.IntN(w)] = true, true
+	default:
+		keep[hi] = true
+	}
+	excl := []string{}
+	for v := lo; v <= hi; v++ {
+		if !keep[v] {
+			excl = append(excl, strconv.Itoa(v))
+		}
+	}
+	r.Shuffle(len(excl), func(i, j int) { excl[i], excl[j] = excl[j], excl[i] })
+	var es []rg.Expr
+	if lo > 0 && r.IntN(2) == 0 {
+		es = append(es, rg.Expr{Op: "Gt", Values: []string{strconv.Itoa(lo - 1)}})
+	} else {
+		es = append(es, rg.Expr{Op: "Gte", Values: []string{strconv.Itoa(lo)}})
+	}
+	if r.IntN(2) == 0 {
+		es = append(es, rg.Expr{Op: "Lt", Values: []string{strconv.Itoa(hi + 1)}})
+	} else {
+		es = append(es, rg.Expr{Op: "Lte", Values: []string{strconv.Itoa(hi)}})
+	}
+	es = append(es, rg.Expr{Op: "NotIn", Values: excl})
+	r.Shuffle(len(es), func(i, j int) { es[i], es[j] = es[j], es[i] })
+	return es
 }
 
 // validated NodePool-style numeric expressions (what ValidateRequirement accepts: one non-negative integer)
@@ -484,11 +525,14 @@ func baseOps(singles []rg.Expr) []*core.Op {
 		},
 		{
 			Name: "c13.any",
-			Doc:  "Requirement.Any() called 24 times on requirements built from validated NodePool-style expressions (every operator combination, Lt 0, Lte MaxInt, exclusions inside a bounded range): relation + Kubernetes semantics + no panic",
+			Doc:  "Requirement.Any() called 24 times on requirements built from validated NodePool-style expressions (every operator combination, Lt 0, Lte MaxInt, exclusions inside a bounded range, nearly or fully exhausted windows): relation + Kubernetes semantics + no panic",
 			N:    func(t core.Tier) int { return map[core.Tier]int{core.Quick: 4000, core.Thorough: 80000}[t] },
 			Gen: func(r *rand.Rand, t core.Tier) any {
-				if r.Float64() < 0.8 {
+				switch x := r.Float64(); {
+				case x < 0.65:
 					return AnyIn{Key: "team", Exprs: genValidatedExprs(r), N: 24}
+				case x < 0.85:
+					return AnyIn{Key: "team", Exprs: genNearlyExhaustedWindow(r), N: 24}
 				}
 				return AnyIn{Key: "team", Exprs: genExprs(r, false, 3), N: 24}
 			},
